@@ -36,6 +36,7 @@ type vhResult struct {
 
 func vhRunOne(fn func([]int), params []int, vec []string) (outcome, detail string, obs []string, label string) {
 	vhVec, vhPos, vhObs, vhLabel, vhReach = vec, 0, nil, "", nil
+	vhResetGlobals()
 	defer func() {
 		obs, label = vhObs, vhLabel
 		if r := recover(); r != nil {
